@@ -117,7 +117,80 @@ func init() {
 			return true
 		})
 		e.facts = append(e.facts, fact{"C09Facts", "const", "revertLoopInclusive", incl, e.pos(fd)})
-		fmt.Fprintf(&sb, "/-- `%s`: the undo loop runs while `i >= snapshot` -/\ndef revertLoopInclusive : Bool := %s\n", e.pos(fd), c09Bool(incl))
+		fmt.Fprintf(&sb, "/-- `%s`: the undo loop runs while `i >= snapshot` -/\ndef revertLoopInclusive : Bool := %s\n\n", e.pos(fd), c09Bool(incl))
+		// --- the undo log of the flat kv backend: order of writes
+		callPos := func(n ast.Node, recvSel, name string) token.Pos {
+			var p token.Pos = token.NoPos
+			ast.Inspect(n, func(x ast.Node) bool {
+				if ce, ok := x.(*ast.CallExpr); ok {
+					if id, ok := ce.Fun.(*ast.Ident); ok && id.Name == name && recvSel == "" && p == token.NoPos {
+						p = ce.Pos()
+					}
+					if se, ok := ce.Fun.(*ast.SelectorExpr); ok && se.Sel.Name == name {
+						if recvSel == "" {
+							if p == token.NoPos {
+								p = ce.Pos()
+							}
+						} else if id, ok := se.X.(*ast.Ident); ok && id.Name == recvSel {
+							if p == token.NoPos {
+								p = ce.Pos()
+							}
+						} else if in, ok := se.X.(*ast.SelectorExpr); ok && in.Sel.Name == recvSel {
+							if p == token.NoPos {
+								p = ce.Pos()
+							}
+						}
+					}
+				}
+				return true
+			})
+			return p
+		}
+		fd, err = e.funcDecl("state/statedb.go", "StateDB", "Commit")
+		if err != nil {
+			return "", err
+		}
+		sw := callPos(fd.Body, "", "SaveWAL")
+		var loop token.Pos = token.NoPos
+		ast.Inspect(fd.Body, func(x ast.Node) bool {
+			if rs, ok := x.(*ast.RangeStmt); ok && loop == token.NoPos {
+				if se, ok := rs.X.(*ast.SelectorExpr); ok && se.Sel.Name == "stateObjects" {
+					loop = rs.Pos()
+				}
+			}
+			return true
+		})
+		saveFirst := sw != token.NoPos && loop != token.NoPos && sw < loop
+		e.facts = append(e.facts, fact{"C09Facts", "callorder", "saveWalBeforeObjects", saveFirst, e.pos(fd)})
+		fmt.Fprintf(&sb, "/-- `%s`: StateDB.Commit truncates the undo log and stores the height (SaveWAL) before any object is written -/\ndef saveWalBeforeObjects : Bool := %s\n\n", e.pos(fd), c09Bool(saveFirst))
+		fd, err = e.funcDecl("state/keyvalue.go", "wrappedTrie", "Commit")
+		if err != nil {
+			return "", err
+		}
+		wp, bp := callPos(fd.Body, "db", "saveWAL"), callPos(fd.Body, "bat", "Commit")
+		lp, sp, dp := callPos(fd.Body, "db", "Load"), callPos(fd.Body, "bat", "Set"), callPos(fd.Body, "bat", "Delete")
+		walFirst := wp != token.NoPos && bp != token.NoPos && wp < bp && lp != token.NoPos && lp < sp && lp < dp
+		e.facts = append(e.facts, fact{"C09Facts", "callorder", "walSyncedBeforeBatch", walFirst, e.pos(fd)})
+		fmt.Fprintf(&sb, "/-- `%s`: wrappedTrie.Commit reads the old value before it queues the update, and syncs the undo log (saveWAL) before the batch is written -/\ndef walSyncedBeforeBatch : Bool := %s\n\n", e.pos(fd), c09Bool(walFirst))
+		fd, err = e.funcDecl("state/keyvalue.go", "", "NewKeyValueDBWithCache")
+		if err != nil {
+			return "", err
+		}
+		rebuildPlusOne := false
+		ast.Inspect(fd.Body, func(x ast.Node) bool {
+			if cc, ok := x.(*ast.CaseClause); ok && len(cc.List) == 1 {
+				if be, ok := cc.List[0].(*ast.BinaryExpr); ok && be.Op == token.ADD {
+					if id, ok := be.X.(*ast.Ident); ok && id.Name == "height" {
+						if bl, ok := be.Y.(*ast.BasicLit); ok && bl.Value == "1" && callPos(cc, "", "rebuildLastState") != token.NoPos {
+							rebuildPlusOne = true
+						}
+					}
+				}
+			}
+			return true
+		})
+		e.facts = append(e.facts, fact{"C09Facts", "callsite", "rebuildWhenOneAhead", rebuildPlusOne, e.pos(fd)})
+		fmt.Fprintf(&sb, "/-- `%s`: the backend replays the undo log exactly when the stored height is the block-store height + 1 -/\ndef rebuildWhenOneAhead : Bool := %s\n", e.pos(fd), c09Bool(rebuildPlusOne))
 		return sb.String(), nil
 	})
 }
